@@ -5,20 +5,20 @@ CONSTANTS
   PNew <- Empty
   PReq <- MCReq
   PConf <- Empty
-  PHeights <- MCHeights
-  PAns = {"ok", "lowfee", "minfee", "reject"}
-  PPub = {"ok", "fail"}
+  PHeights <- MCFarHeights
+  PAns = {"ok"}
+  PPub = {"ok"}
   Relay = 253
   Ends = {}
-  Sopts = {0, 300, 600}
-  Ests = {0, 100, 260, 9000}
+  Sopts = {0, 600}
+  Ests = {0, 260, 9000}
   Cts = {}
   ConfSet = {}
-  Weights = {600, 4000}
-  Budgets = {1000, 2000, 2001, 2002, 2003}
+  Weights = {600}
+  Budgets = {1000, 2003}
   MaxVbs = {1, 2, 400}
-  InSets = {1, 2, 3, 4, 6, 7, 8, 9}
-  Conf0 = 3
+  InSets = {1, 8}
+  Conf0 = 1009
   H0 = 100
 INVARIANTS TypeOK FFMonotone FFBelowEnd FFAboveFloor FFCeilAtWidth FFCeilByDeadline FFShape
   PubFeeLeBudget PubRateLeMax PubRateLeCeil PubNoDust PubSomeOutput PubMonotone PubAboveFloor PubFeeExact PubCeilByDeadline RegroupStart RegroupNoDecrease PubRegroupNoDecrease
